@@ -27,11 +27,11 @@ CHUNK = 20
 
 
 def bounds(tier, seed):
-    return {"nets": ["N2", "N5"], "kmax": 3 if tier == "thorough" else 2, "options": 40}
+    return {"nets": ["N2", "N5", "N7"], "kmax": 3 if tier == "thorough" else 2, "options": 40}
 
 
 def space(tier, seed):
-    return list(A.scenarios(tier, ["N2", "N5"]))
+    return list(A.scenarios(tier, ["N2", "N5", "N7"]))
 
 
 def check(scn, tr, out):
